@@ -170,6 +170,9 @@ def run_concrete(stmts, env, events, notes, depth=0, workers=(), resolver=None, 
                     return list(enumerate(avals[0], *(avals[1:2])))
                 if f.id in ("list", "tuple") and len(avals) == 1 and isinstance(avals[0], (list, tuple)):
                     return list(avals[0])
+                if f.id in ("all", "any") and len(avals) == 1 and isinstance(avals[0], (list, tuple)) and not any(isinstance(x, Desc) for x in avals[0]):
+                    truths = [(bool(x.items) if isinstance(x, Ref) else True) if isinstance(x, Obj) else bool(x) for x in avals[0]]
+                    return all(truths) if f.id == "all" else any(truths)
                 args = [show(a) for a in avals] + ["%s=%s" % (k, show(v)) for k, v in kvals.items()]
                 return Desc("%s(%s)" % (f.id, ", ".join(args)))
         if isinstance(e, ast.Name) and isinstance(env.get(e.id), (Obj, ClsRef, Desc, list, tuple)):
